@@ -43,17 +43,29 @@ def r02_1(prog, rep):
         want = ("call", ("attr", SELF, outer), (("call", ("attr", SELF, inner), (("param", par),), ()),), ())
         rets = P.returns(P.paths_of(prog, m))
         rep.check(bool(rets) and all(r == want for _, r in rets), "R02.1", m.qualname, m.loc, f"returns self.{outer}(self.{inner}({par}))", f"{m.name} is not self.{outer}(self.{inner}({par})): {T.show(rets[0][1])[:120] if rets else 'no return'}")
+    def bodies(qual, sigma):
+        """The return terms of a side-effect-free one-path library function with its parameters substituted: a caller
+        that spells the body out instead of calling it computes the same thing."""
+        g = prog.function(qual)
+        gps = P.paths_of(prog, g)
+        if any(ev[0] in ("setitem", "setattr", "delete") for pth in gps for ev in pth.events):
+            return []
+        return [P.substitute(rr, sigma) for _, rr in P.returns(gps)]
+
     e = prog.function("typelib.api.encode")
+    m_bodies = bodies("typelib.marshals.api.marshal", {"value": ("param", "value"), "t": ("param", "t")})
     for p, r in P.returns(P.paths_of(prog, e)):
         ok = r[0] == "call" and r[1] == ("param", "encoder") and len(r[2]) == 1 and not r[3]
         inner = r[2][0] if ok else None
-        ok = ok and T.is_call_to(inner, "typelib.marshals.api.marshal") and _arg(inner, 0, "value") == ("param", "value") and _arg(inner, 1, "t") == ("param", "t")
+        ok = ok and (T.is_call_to(inner, "typelib.marshals.api.marshal") and _arg(inner, 0, "value") == ("param", "value") and _arg(inner, 1, "t") == ("param", "t") or (len(m_bodies) == 1 and inner == m_bodies[0]))
         rep.check(ok, "R02.1", e.qualname, e.loc, "returns encoder(marshal(value, t=t))", "api.encode does not apply its `encoder` parameter to marshal(value, t=t): " + T.show(r)[:120])
     d = prog.function("typelib.api.decode")
     for p, r in P.returns(P.paths_of(prog, d)):
         ok = T.is_call_to(r, "typelib.unmarshals.api.unmarshal") and _arg(r, 0, "t") == ("param", "t")
         v = _arg(r, 1, "value") if ok else None
         ok = ok and v == ("call", ("param", "decoder"), (("param", "value"),), ())
+        u_bodies = bodies("typelib.unmarshals.api.unmarshal", {"t": ("param", "t"), "value": ("call", ("param", "decoder"), (("param", "value"),), ())})
+        ok = ok or (len(u_bodies) == 1 and r == u_bodies[0])
         rep.check(ok, "R02.1", d.qualname, d.loc, "returns unmarshal(t, decoder(value))", "api.decode does not unmarshal(t, <its `decoder` parameter applied to value>): " + T.show(r)[:120])
 
 
